@@ -8,11 +8,12 @@ CONSTANTS
   Mode = "lk"
   NC = 2
   MaxBody = 4
-  MaxPrefix = 2
+  MaxPrefix = 1
   SkipBytes = {0, 1, 128}
   Variants = {0}
   DimVals = {0, 3}
   MaxW = 2
+  MaxE = 2
   MaxH = 1
   DomT = 2
   PadK = 0
